@@ -29,6 +29,10 @@ from symx.world import SHIM_LIST, SymNp
 
 from .common import Cfg, collect_graph, unit_hashes, world
 
+import warnings
+
+warnings.filterwarnings("ignore", message="All-NaN (axis|slice) encountered", category=RuntimeWarning)
+
 PROPERTY = "C18"
 RD = "dask_array.reductions._reduction"
 CMN = "dask_array.reductions._common"
@@ -163,6 +167,104 @@ def inst_tree_structure(blocks, axes, split_every, keepdims=True):
     nm = "x".join(map(str, blocks))
     return Instance(f"tree_structure[blocks={nm},axes={axes},split_every={split_every},keepdims={keepdims}]", body,
                     dict(blocks=blocks, axes=axes, split_every=split_every), unit="_build_tree_reduce_expr + PartialReduce.chunks/_layer")
+
+
+def inst_public_extremum(which, chunks, split_every):
+    """the public min/max (the chunk, combine and aggregate functions they wire into `reduction`, the tree the real lowering
+    builds for `split_every`) over a 1-d array whose chunk sizes -- zero-length chunks included -- are concrete and whose data
+    is symbolic: the graph of the real layers is executed on object arrays of symbolic reals and the result must be an
+    element of the data that bounds all of it"""
+    n = sum(chunks)
+
+    def body(E):
+        import dask_array.io._from_array as FAm
+        from symx.graph import Runner
+
+        from . import catalog
+
+        w = catalog.W(E)
+        xs = _sym_data(E, n)
+        meta = np.empty((0,))
+        cs = (tuple(chunks),)
+        node = w.space.make(FAm.FromArray, leaf("X", (n,)), cs, _symx_attrs=dict(_meta=meta, chunks=cs, _name="x"))
+        blocks, k = {}, 0
+        for i, c in enumerate(chunks):
+            blocks[("x", i)] = np.array(list(xs[k:k + c]), dtype=object)
+            k += c
+        node.__dict__["_symx_layer"] = blocks
+        coll = w.fn(catalog.NC, "new_collection")(node)
+        out = w.fn(catalog.RCM, which)(coll, axis=0, split_every=split_every)
+        m = catalog.stages(E, w, out.expr, {"materialized"})["materialized"]
+        dsk = catalog._layers(m)
+        E.observe("tasks", len(dsk))
+        res = Runner(dsk).get((m._name,))
+        res = np.asarray(res, dtype=object).ravel()
+        E.ensure("scalar-result", len(res) == 1)
+        r = res[0]
+        if which == "min":
+            E.ensure("bounds-all", AND(*[r <= v for v in xs]))
+        else:
+            E.ensure("bounds-all", AND(*[r >= v for v in xs]))
+        E.ensure("is-an-element", OR(*[r == v for v in xs]))
+
+    return Instance(f"public_{which}[chunks={chunks},split_every={split_every}]", body, dict(chunks=chunks, split_every=split_every),
+                    unit=f"reductions._common.{which} + reduction() + tree lowering + chunk_{which}/partial_reduce", cost=2 ** n)
+
+
+def inst_public_nanarg(which, chunks, nan_at, axis, split_every=None):
+    """the public nanargmin/nanargmax along `axis` of a 2-d array with concrete chunk sizes, NaN at the positions `nan_at`
+    and symbolic reals elsewhere (object-array blocks through the real graph): per output slice, the answer is the first
+    position among the non-NaN entries attaining the extremum (slices that are NaN throughout must not occur: NumPy raises)"""
+    shape = tuple(sum(c) for c in chunks)
+
+    def body(E):
+        import dask_array.io._from_array as FAm
+        from symx.graph import Runner
+
+        from . import catalog
+
+        w = catalog.W(E)
+        # concrete replays run the un-shimmed NumPy (np.isnan needs a float array): rationals become floats there
+        X = np.empty(shape, dtype=object if E.symbolic else float)
+        for pos in itertools.product(*[range(n) for n in shape]):
+            v = float("nan") if pos in nan_at else E.real("x" + "_".join(map(str, pos)))
+            X[pos] = v if E.symbolic else float(v)
+        meta = np.empty((0,) * len(shape))
+        cs = tuple(tuple(c) for c in chunks)
+        node = w.space.make(FAm.FromArray, leaf("X", shape), cs, _symx_attrs=dict(_meta=meta, chunks=cs, _name="x"))
+        bnd = [np.cumsum((0,) + c) for c in cs]
+        node.__dict__["_symx_layer"] = {("x",) + g: X[tuple(slice(b[i], b[i + 1]) for b, i in zip(bnd, g))].copy()
+                                        for g in itertools.product(*[range(len(c)) for c in cs])}
+        coll = w.fn(catalog.NC, "new_collection")(node)
+        out = w.fn(catalog.RCM, which)(coll, axis=axis, split_every=split_every)
+        m = catalog.stages(E, w, out.expr, {"materialized"})["materialized"]
+        dsk = catalog._layers(m)
+        r = Runner(dsk)
+        nb = tuple(len(c) for c in m.chunks)
+        parts = [np.asarray(r.get((m._name,) + g)) for g in itertools.product(*[range(n) for n in nb])]
+        res = np.concatenate([p.ravel() for p in parts])
+        other = 1 - axis
+        E.ensure("one-answer-per-slice", len(res) == shape[other])
+        for j in range(min(len(res), shape[other])):
+            got = int(res[j])
+            line = [X[(k, j) if axis == 0 else (j, k)] for k in range(shape[axis])]
+            valid = [k for k in range(shape[axis]) if ((k, j) if axis == 0 else (j, k)) not in nan_at]
+            E.ensure(f"slice{j}-answer-is-not-a-nan-position", got in valid)
+            if got not in valid:
+                continue
+            best = line[got]
+            conds = []
+            for k in valid:
+                if k < got:
+                    conds.append(line[k] < best if "max" in which else line[k] > best)
+                elif k > got:
+                    conds.append(line[k] <= best if "max" in which else line[k] >= best)
+            E.ensure(f"slice{j}-first-extremum-among-non-nan", AND(*conds) if conds else True)
+
+    nm = "x".join("+".join(map(str, c)) for c in chunks)
+    return Instance(f"public_{which}[chunks={nm},nan_at={sorted(nan_at)},axis={axis},split_every={split_every}]", body,
+                    dict(chunks=chunks, nan_at=sorted(nan_at), axis=axis), unit=f"reductions._common.{which} + arg_reduction + arg_chunk/"
+                    "arg_combine/nanarg_agg/_nanarg* through the real tree", cost=2 ** (shape[0] * shape[1] - len(nan_at)))
 
 
 # ------------------------------------------------------------------ (b) combine algebra on symbolic data
@@ -361,6 +463,18 @@ def instances(tier):
     out.append(inst_tree_structure((3, 3), (0, 1), 4, keepdims=False))
     out.append(inst_tree_structure((4, 2, 3), (0, 2), {0: 2, 2: 2}))
     out.append(inst_arg_nd(((2,), (1, 1)), "argmin"))
+    # one block holds a slice that is NaN throughout (the fallback inside _nanarg*) next to a slice with a NaN before its extremum
+    nan_at = {(0, 0), (0, 1), (1, 0), (2, 1), (2, 2)}
+    out.append(inst_public_nanarg("nanargmax", ((3,), (2, 2)), nan_at, 1))
+    out.append(inst_public_nanarg("nanargmin", ((3,), (2, 2)), nan_at, 1))
+    out.append(inst_public_nanarg("nanargmax", ((2, 1), (2,)), {(0, 0)}, 0))
+    for which in ("min", "max"):
+        out.append(inst_public_extremum(which, (1, 2), 2))
+        out.append(inst_public_extremum(which, (1, 1, 0, 0), 2))  # a whole group of the tree is empty
+        out.append(inst_public_extremum(which, (0, 2, 0), 2))
+        if not q:
+            out.append(inst_public_extremum(which, (2, 0, 0, 1, 0), 2))
+            out.append(inst_public_extremum(which, (1, 0, 0, 0, 2), {0: 3}))
     out.append(inst_arg_nd(((1, 1), (2,)), "argmax"))
     out.append(inst_arg_nd(((1, 1), (1, 1)), "argmin"))
     out.append(inst_moment((2, 2), 3, 0, False))
